@@ -661,6 +661,13 @@ fn judge(ctx: &mut Ctx, id: u64, ty: &str, o: &Opts, g: Gathered) {
     ctx.out.case(id, &c, &tagrefs, &desc, key);
 }
 
+/// run `f` on a helper thread; None when it does not come back in time (the thread is left behind)
+fn finishes_within<T: Send + 'static>(secs: u64, f: impl FnOnce() -> T + Send + 'static) -> Option<T> {
+    let (tx, rx) = std::sync::mpsc::channel();
+    std::thread::spawn(move || { let _ = tx.send(f()); });
+    rx.recv_timeout(std::time::Duration::from_secs(secs)).ok()
+}
+
 // exact renderings for observations
 fn fx<F: std::fmt::Debug>(x: F) -> String { format!("{:?}", x) }
 fn a1<F: std::fmt::Debug>(a: &Array1<F>) -> String { a.iter().map(|x| format!("{:?}", x)).collect::<Vec<_>>().join(",") }
@@ -953,7 +960,12 @@ macro_rules! sec_linear {
             let mut tp = TweedieRegressor::<$F>::params().alpha(*r.pick(&[0.0, 0.1, 1.0]) as $F).power(power)
                 .max_iter(20 + r.below(80) as usize).tol(*r.pick(&ftols!($F)) as $F).fit_intercept(rep % 2 == 0);
             if r.chance(0.5) { tp = tp.link(if power == 0.0 { Link::Identity } else { Link::Log }); }
+            if std::env::var("VERIF_C19_DEBUG").is_ok() { eprintln!("tweedie {} rep {} power {:?} params {:?}", fl, rep, power, tp); }
             if let Ok(valid) = tp.check() {
+                // the f32 L-BFGS line search of the GLM can spin for ever on some settings (seen: power 3, log link):
+                // such a parameter set cannot be observed, it is skipped and counted
+                let probe = { let (v, d) = (valid.clone(), dsp.clone()); finishes_within(20, move || v.fit(&d).is_ok()) };
+                if probe.is_none() { ctx.out.bump("tweedie_fit_did_not_terminate_skipped"); continue; }
                 let dsc = dsp.clone();
                 rt(ctx, &format!("TweedieRegressorValidParams<{}>", fl), &valid, &tags(&[fl, "params"]), &move |p| {
                     vec![format!("{:?}", p), format!("{:?} {:?} {:?} {:?} {:?} {:?}", p.alpha(), p.fit_intercept(), p.power(), p.link(), p.max_iter(), p.tol()), res(&p.fit(&dsc), |m| format!("{:?}", m))]
